@@ -79,13 +79,20 @@ def plan(quick):
           ("dip", "hh", "hhhp", 1), ("dip", "hhhp", "hh", 1),
           ("dip", "hh", "hhhp", 2), ("dip", "hhhp", "hh", 2),
           ("dea", "pp", "ppph", 1), ("dea", "ppph", "pp", 1),
-          ("dea", "pp", "ppph", 2), ("dea", "ppph", "pp", 2)]
+          ("dea", "pp", "ppph", 2), ("dea", "ppph", "pp", 2),
+          # main class / third class (two excitation levels apart): the
+          # first-order Hamiltonian can couple them, the block vanishes only
+          # after the first-order amplitudes are inserted
+          ("ip", "h", "hhhpp", 1), ("ip", "hhhpp", "h", 1),
+          ("ea", "p", "ppphh", 1), ("ea", "ppphh", "p", 1)]
     if not quick:
         P_ += [("pp", "ph", "ph", 3), ("pp", "pphh", "pphh", 1),
                ("ip", "hhp", "hhp", 0), ("ea", "pph", "pph", 0),
                ("ip", "hhp", "hhp", 1), ("ea", "pph", "pph", 1),
                ("dip", "hh", "hh", 2), ("dea", "pp", "pp", 2),
-               ("dip", "hhhp", "hhhp", 0), ("dea", "ppph", "ppph", 0)]
+               ("dip", "hhhp", "hhhp", 0), ("dea", "ppph", "ppph", 0),
+               ("pp", "ph", "ppphhh", 1), ("pp", "ppphhh", "ph", 1),
+               ("ip", "hhp", "hhhpp", 1), ("ea", "pph", "ppphh", 1)]
     return P_
 
 
@@ -294,7 +301,10 @@ def _job(arg):
         space = detspace.Space(3, 3, seed, canonical=True)
         E, psi = space.rspt("mp", max_order)
         model = make_model(space, psi)
-        X = isr_explicit.ISR(space, psi, E, variant, max_order, n_classes=2)
+        third = {c[2][0] for c in isr_explicit.CLASSES.values()
+                 if len(c) > 2}
+        X = isr_explicit.ISR(space, psi, E, variant, max_order,
+                             n_classes=3 if bs in third or ks in third else 2)
         if bs not in X.classes or ks not in X.classes:
             continue
         mdl = {"nocc": 3, "nvirt": 3, "seed": seed}
